@@ -220,3 +220,7 @@ func VerifHarness_C10_O5() {
 	verifAssert("and-not-of-the-other-set", string(b.PeersHash()) != string(oh))
 	verifReach("end")
 }
+
+// C10/O8 — the set in force at a round is the one used for that round's
+// decisions: fame threshold across a validator-set change (= C01/O2d).
+func VerifHarness_C10_O8() { VerifHarness_C01_O2d() }
